@@ -60,6 +60,11 @@ ASAN_RE = re.compile(r'ERROR: AddressSanitizer: ([\w-]+)')
 FRAME_RE = re.compile(r'#(\d+) 0x[0-9a-f]+ in (\S+) (\S+?):(\d+)')
 UBSAN_RE = re.compile(r'(\S+?):(\d+):(\d+): runtime error: (.*)')
 
+_FN_SUFFIX = re.compile(r'\.(isra|constprop|part|cold|lto_priv)(\.\d+)?')
+def _fn(name):
+    """function name without compiler-generated clone suffixes (predict_bits.part.0.isra.0 -> predict_bits): they change with unrelated edits"""
+    return _FN_SUFFIX.sub('', name)
+
 def _asan_site(stderr):
     """normalised site of an ASan report: kind + first frames that are in the repository's sources"""
     m = ASAN_RE.search(stderr)
@@ -78,7 +83,7 @@ def _asan_site(stderr):
     for fm in re.finditer(r'#(\d+) 0x[0-9a-f]+ in (\S+) ([^\s:]+)', blk):
         fn, path = fm.group(2), fm.group(3)
         if '/Source/' in path:
-            frames.append('%s@%s' % (fn, os.path.basename(path)))
+            frames.append('%s@%s' % (_fn(fn), os.path.basename(path)))
         if len(frames) >= 2:
             break
     # the access kind (READ/WRITE) is part of the signature
@@ -103,7 +108,7 @@ def fault_frames(res):
     for b in [b for b in p.stdout.split('\n\n') if b.strip()]:
         ls = b.strip().split('\n')
         if len(ls) >= 2 and '/Source/' in ls[1]:
-            frames.append('%s@%s' % (ls[0], os.path.basename(ls[1].split(':')[0])))
+            frames.append('%s@%s' % (_fn(ls[0]), os.path.basename(ls[1].split(':')[0])))
     _fault_cache[key] = frames
     return frames
 
@@ -123,7 +128,7 @@ def _symbolize_crash(stderr, variant):
     for b in out:
         ls = b.strip().split('\n')
         if len(ls) >= 2 and '/Source/' in ls[1]:
-            frames.append('%s@%s' % (ls[0], os.path.basename(ls[1].split(':')[0])))
+            frames.append('%s@%s' % (_fn(ls[0]), os.path.basename(ls[1].split(':')[0])))
     return frames
 
 _WAIT_HELPERS = ('svt_block_on_semaphore', 'svt_block_on_mutex', 'svt_wait_cond_var', 'svt_get_full_object', 'svt_get_empty_object', 'svt_get_full_object_non_blocking')
@@ -145,7 +150,7 @@ def _deadlock_site(blocked, variant):
     for t, b in zip(idx, out):
         ls = b.strip().split('\n')
         if len(ls) >= 2 and '/Source/' in ls[1]:
-            per.setdefault(t, []).append(ls[0])
+            per.setdefault(t, []).append(_fn(ls[0]))
     waits = []
     for t, fr in sorted(per.items()):
         prim = next((f for f in fr if f in _WAIT_HELPERS[3:]), None) or next((f for f in fr if f in _WAIT_HELPERS), '?')
@@ -175,7 +180,7 @@ def _livelock_site(blocked, variant):
     for t, b in zip(idx, out):
         ls = b.strip().split('\n')
         if len(ls) >= 2 and '/Source/' in ls[1]:
-            per.setdefault(t, []).append(ls[0])
+            per.setdefault(t, []).append(_fn(ls[0]))
     fns = []
     for t, fr in sorted(per.items()):
         f = next((x for x in fr if x not in _WAIT_HELPERS and not x.startswith('svt_verif')), None)
